@@ -38,6 +38,12 @@ def interval(t):
         if op == "BitAnd" and iy and iy[0] == iy[1] and iy[0] >= 0:
             return (0, iy[0])
         return None
+    if t[0] == "call" and isinstance(t[1], tuple) and t[1][:1] == ("builtin",) and t[1][1] in ("max", "min") and len(t) > 2 and len(t[2]) >= 2:
+        ivs = [interval(x) for x in t[2]]
+        if all(ivs):
+            pick = max if t[1][1] == "max" else min
+            return (pick(i[0] for i in ivs), pick(i[1] for i in ivs))
+        return None
     if t[0] == "boolop" and t[1] == "Or" and len(t[2]) == 2:
         ia, ib = interval(t[2][0]), interval(t[2][1])
         if ia and ib:
